@@ -268,3 +268,10 @@ package dvid
 //@   ghost minCh bool = false
 //@   ghostset at "if ext.MaxIndex == nil {": minCh = minChanged
 //@   ensures minCh ==> result
+
+// Offset of a voxel inside its block (the index used when voxels are copied between a block and a
+// request buffer), for every coordinate incl. negative ones.
+//@ func Point3d.Point3dInChunk
+//@   prop C17
+//@   requires size[0] > 0 && size[1] > 0 && size[2] > 0
+//@   ensures result[0] == fmod(p[0], size[0]) && result[1] == fmod(p[1], size[1]) && result[2] == fmod(p[2], size[2])
